@@ -33,7 +33,8 @@ type Clause struct {
 	CaseLo, CaseHi int
 	// atcall: the callee (FuncID) before whose calls the assertion is checked; its
 	// receiver and arguments are available as a0, a1, ...
-	Callee string
+	Callee      string
+	CalleeTypes []string // explicit receiver and parameter types (library callees)
 }
 
 type Param struct{ Name, Type string }
@@ -250,7 +251,26 @@ func ParseContractFile(pkgKey, path string) ([]*Contract, error) {
 			if len(sp) != 2 {
 				return nil, fmt.Errorf("%s:%d: atcall <callee> <expr>", path, it.line)
 			}
-			cur.AtCalls = append(cur.AtCalls, &Clause{Kind: "atcall", Props: props, Text: strings.TrimSpace(sp[1]), Callee: sp[0], Line: it.line, N: len(cur.AtCalls)})
+			callee, text := sp[0], strings.TrimSpace(sp[1])
+			var ptypes []string
+			// optional explicit parameter types for library callees: name(T0, T1, ...)
+			if k := strings.LastIndex(callee, ")("); k >= 0 && strings.HasSuffix(callee, ")") {
+				// "(recv).Name(T0,T1)" was split at the first space: re-join when the type list had spaces
+			}
+			if strings.HasPrefix(text, "(") && !strings.HasPrefix(callee, "(*") && false {
+			}
+			if i := strings.Index(rest, "::"); i >= 0 {
+				// form: atcall <callee> :: T0, T1, ... :: expr
+				parts := strings.SplitN(rest, "::", 3)
+				if len(parts) == 3 {
+					callee = strings.TrimSpace(parts[0])
+					for _, t := range splitTop(parts[1], ",") {
+						ptypes = append(ptypes, strings.TrimSpace(t))
+					}
+					text = strings.TrimSpace(parts[2])
+				}
+			}
+			cur.AtCalls = append(cur.AtCalls, &Clause{Kind: "atcall", Props: props, Text: text, Callee: callee, Line: it.line, N: len(cur.AtCalls), CalleeTypes: ptypes})
 		case "pure":
 			cur.Pure = true
 			if rest != "" {
@@ -817,6 +837,9 @@ func GenClauses(pkgName string, imports []string, cs []*Contract, calleeParams m
 			}
 			if cl.Kind == "atcall" {
 				cp, ok := calleeParams[cl.Callee]
+				if len(cl.CalleeTypes) > 0 {
+					cp, ok = cl.CalleeTypes, true
+				}
 				if !ok {
 					return "", fmt.Errorf("%s:%d: atcall: function %s not found", c.File, cl.Line, cl.Callee)
 				}
